@@ -51,6 +51,13 @@ class Ctx:
         except Exception as e:  # noqa: BLE001 - CrossHair control flow is BaseException
             if type(e).__name__ == "NotDeterministic":
                 raise
+            tb = e.__traceback__
+            last = None
+            while tb is not None:
+                last = tb.tb_frame.f_code.co_filename
+                tb = tb.tb_next
+            if last is not None and last.endswith("/model/observe.py") and type(e).__name__ != "Injected":
+                raise  # raised by the observer's own wrappers, not by the code under test: a harness error, never a verdict
             return False, e
 
 
